@@ -98,6 +98,7 @@ AtomCalls(rt, cd, n) ==
            ExecuteVia("u1", << Inst(2, "Ly", "u1", Eth(1), "") >>, "helper"),
            ExecuteVia("u1", << Inst(7, "Ly", "u1", <<>>, "") >>, "helper"),
            ExecuteVia("u1", << Inst(2, "Ly", "u1", Eth(1), "s1") >>, "helper"),      \* Executor::instantiate2_contract
+           ExecuteVia("u1", << Inst(2, "Ly", "u1", <<>>, "EMPTY") >>, "helper"), ExecuteVia("u1", << Inst(2, "Ly", "u1", <<>>, "LONG") >>, "helper"),
            ExecuteVia("u1", << Migrate(A, 2) >>, "helper"), ExecuteVia("u2", << Migrate(A, 2) >>, "helper"),   \* Executor::migrate_contract
            SudoMint("u2", Eth(1)), SudoMint("u2", Eth(0)) }
     \cup { SudoWasm(A, v) : v \in {"sudo", "wasm_sudo"} }
@@ -241,6 +242,7 @@ RegCalls(rt, cd, n) ==
     \cup { ExecuteCall(u, << Inst(code, label, adm, <<>>, salt) >>) :
               u \in {"u1", "u2"}, code \in {1, 3, 5, 7}, label \in {"Lq", ""}, adm \in {"", "u2"}, salt \in {"", "s1"} }
     \cup { ExecuteCall("u1", << Inst(1, "Lq", "", <<>>, salt) >>) : salt \in {"EMPTY", "LONG", "MAX"} }   \* salts of 0, 65, 64 bytes
+    \cup { ExecuteVia("u1", << Inst(1, "Lq", "", <<>>, salt) >>, "helper") : salt \in {"s1", "EMPTY", "LONG"} }   \* Executor::instantiate2_contract
     \cup { ExecuteCall("u1", << Exec(A, <<>>) >>) }
     \cup { ExecuteCall("u1", << Migrate(A, c) >>) : c \in {1, 2, 3, 4, 5, 6} }     \* A's admin migrates to every id
 
